@@ -65,7 +65,7 @@ def time_average(
 
     for n in range(results.shape[0]):
         results[n, :] = input_property[n:n + time_nsnapshot].mean(axis=0)
-        results_middle_snapshots.append(round(n + time_nsnapshot / 2))
+        results_middle_snapshots.append(n + time_nsnapshot // 2)
     return results, np.array(results_middle_snapshots)
 
 
